@@ -971,7 +971,7 @@ func genProg(r *vrand.R, backward bool) []Op {
 			p[i] = Op{K: "N"}
 			continue
 		}
-		m := []int{0, 0, 1, 1, 2, 3, 4, 6}[r.Intn(8)]
+		m := []int{0, 0, 0, 1, 1, 1, 2, 2, 3, 4, 4, 6}[r.Intn(12)]
 		if backward && r.Chance(1, 3) {
 			p[i] = Op{K: "A", M: 5, A: r.Range(0, 50)}
 			continue
@@ -1103,13 +1103,12 @@ func genExhaustive(r *vrand.R, emit func(In)) {
 	}
 	rec(nil, 4)
 	for _, eng := range []string{"scorch-mem", "upsidedown"} {
-		for ci := 0; ci < 3; ci++ {
+		for ci := 0; ci < 2; ci++ {
 			corp := genCorpus(r, eng, 6)
 			qs := []*Q{
 				{K: "conj", Kids: []*Q{termQ(r), termQ(r)}},
 				{K: "disj", Min: 1, Kids: []*Q{termQ(r), termQ(r), termQ(r)}},
 				{K: "bool", Must: []*Q{termQ(r)}, Should: []*Q{termQ(r), termQ(r)}, MinShould: 1, MustNot: []*Q{termQ(r)}},
-				{K: "bool", Should: []*Q{termQ(r), termQ(r)}, MustNot: []*Q{termQ(r)}},
 			}
 			for _, q := range qs {
 				for _, p := range progs {
